@@ -223,4 +223,13 @@ def ctxPrecedes (tree : PNode) (ctxRoot : Option Nat) (follows : Bool) (a b : Na
   (walkRoots tree a b (ctxRoot.toList ++ [a, b].filter fun p => (nodeAt tree p).any PNode.isDoc)).map
     fun r => if follows then !r else r
 
+/-! ### operands of an operator expression
+
+`self[0].select(copy(context))`, `self[1].select(copy(context))` (`|` `_xpath1_operators.py:263`,
+`intersect`/`except` `_xpath2_operators.py:71`), `self[k].select(context)` with selectors that restore
+the focus (`is`, `<<`, `>>`): each operand is evaluated from the operator's own focus, never from
+where the other operand left the context. -/
+def opAtFocus {α : Type} (op : List Nat → List Nat → α) (e1 e2 : Nat → List Nat) (focus : Nat) : α :=
+  op (e1 focus) (e2 focus)
+
 end EPV.Builder
